@@ -205,15 +205,14 @@ func init() {
 	})
 }
 
-// copyCompleteRule: where content is copied into its place in a structure, all of it arrives: at a copy(dst, src) on the writing
-// side, len(dst) >= len(src) is proven from slice bounds, make sizes and the dominating tests (copy silently truncates, so an
-// object of n bytes copied into a window of n-1 keeps its old last byte). Not-decided copies are frozen per function in
-// baselines/copies.json; growth is reported.
+// copyCompleteRule: where content is copied into an explicit window dst[a:b] on the writing side, the window is not provably
+// shorter than what is copied into it: if len(src) - (b - a) >= 1 follows from slice bounds, make sizes and the dominating tests,
+// copy silently drops the tail (an object of n bytes copied into a window of n-1 keeps its old last byte). A window that is
+// proven long enough holds; everything else (a deliberate truncation to a field width among it) is not decided.
 func copyCompleteRule(c *Ctx, r *Result, rule string) { copyCompleteRuleScoped(c, r, rule, nil) }
 
 func copyCompleteRuleScoped(c *Ctx, r *Result, rule string, scope func(string) bool) {
 	readers := c.readerSet(r)
-	per := map[string][]undecidedItem{}
 	n := 0
 	for _, fn := range c.LibFuncs() {
 		if readers[fn] {
@@ -227,6 +226,7 @@ func copyCompleteRuleScoped(c *Ctx, r *Result, rule string, scope func(string) b
 			continue
 		}
 		var fb *FB
+		k := 0
 		instrs(fn, func(in ssa.Instruction) {
 			call, ok := in.(*ssa.Call)
 			if !ok {
@@ -236,34 +236,33 @@ func copyCompleteRuleScoped(c *Ctx, r *Result, rule string, scope func(string) b
 			if !ok || b.Name() != "copy" {
 				return
 			}
-			if fb == nil {
-				fb = c.FB(fn)
-			}
-			// only explicit windows dst[a:b]: that is where the length of the destination is written down next to the copy
-			// (and where an off-by-one sits); an open-ended destination is as long as its buffer, whose sizing is the
-			// business of the allocation rules
 			if sl, isSl := call.Call.Args[0].(*ssa.Slice); !isSl || sl.High == nil {
 				return
 			}
-			n++
-			d, s := fb.lenLin(call.Call.Args[0]), fb.lenLin(call.Call.Args[1])
-			if fb.ProveGE0At(d.add(s, -1), call) {
-				return
+			if fb == nil {
+				fb = c.FB(fn)
 			}
-			per[c.Name(fn)] = append(per[c.Name(fn)], undecidedItem{c.InstrPos(call), "copy: len(dst) = " + fb.linString(d) + " is not shown to be >= len(src) = " + fb.linString(s)})
+			n++
+			k++
+			cons := fmt.Sprintf("%s#window-copy-%d", c.Name(fn), k)
+			d, s := fb.lenLin(call.Call.Args[0]), fb.lenLin(call.Call.Args[1])
+			switch {
+			case fb.ProveGE0At(s.add(d, -1).add(linConst(1), -1), call):
+				r.Viol(rule, cons, c.InstrPos(call), "the window is provably shorter than the source: len(dst) = "+fb.linString(d)+", len(src) = "+fb.linString(s)+" (copy drops the tail without an error)")
+			case fb.ProveGE0At(d.add(s, -1), call):
+				r.Hold(rule, cons, c.InstrPos(call), "len(dst) = "+fb.linString(d)+" >= len(src) = "+fb.linString(s))
+			default:
+				r.Undec(rule, cons, c.InstrPos(call), "neither len(dst) >= len(src) nor len(src) > len(dst) follows: len(dst) = "+fb.linString(d)+", len(src) = "+fb.linString(s))
+			}
 		})
 	}
 	if (scope == nil && n < 10) || n < 1 {
 		r.Shortfall(c, rule, fmt.Sprintf("%s: only %d copy sites examined on the writing side", rule, n))
 	}
-	r.Notef("%s: %d copy sites examined", rule, n)
-	baselineReadOnly = scope != nil
-	r.ApplyBaselineFile(verifDirGlobal, "copies", rule, "possibly-truncating-copy", per)
-	baselineReadOnly = false
 }
 
 func init() {
-	txt := "content copied into its place arrives completely: at every copy into an explicit window dst[a:b] on the writing side b - a >= len(src) is proven from slice bounds, allocation sizes and dominating tests (an overwrite whose window is one byte short keeps the old last byte and reports success); copies that are not decided are frozen per function and only growth is reported"
+	txt := "content copied into its place arrives completely: no copy into an explicit window dst[a:b] on the writing side has a window that is provably shorter than its source (len(src) - (b - a) >= 1 from slice bounds, allocation sizes and dominating tests: an overwrite whose window is one byte short keeps the old last byte and reports success); windows proven long enough hold, the rest - deliberate truncation to a field width - is not decided"
 	registry["C02"].Meta.Rules["C02.11"] = txt
 	registry["C02"].Rules = append(registry["C02"].Rules, func(c *Ctx, r *Result) { copyCompleteRule(c, r, "C02.11") })
 }
@@ -937,7 +936,7 @@ func init() {
 			reg.Meta.Rules[idN] = "values written into narrower fields fit them, in " + what + ": every conversion of a non-constant integer to a narrower unsigned type has its operand proven within the target type (and non-negative); not-decided conversions are frozen per function and only growth is reported (C05.11 restricted to this code)"
 			reg.Rules = append(reg.Rules, func(c *Ctx, r *Result) { narrowingRuleScoped(c, r, idN, scope) })
 		}
-		reg.Meta.Rules[idC] = "content is copied into its place completely, in " + what + ": at every copy into an explicit window dst[a:b], b - a >= len(src) is proven; not-decided copies are frozen per function and only growth is reported (C02.11 restricted to this code)"
+		reg.Meta.Rules[idC] = "content is copied into its place completely, in " + what + ": no copy into an explicit window dst[a:b] has a window provably shorter than its source (C02.11 restricted to this code)"
 		reg.Rules = append(reg.Rules, func(c *Ctx, r *Result) { copyCompleteRuleScoped(c, r, idC, scope) })
 	}
 	share("C11", "C11.10", "C11.11", "the metadata encoders of package core and the superblock/object header writers", pre("core."))
@@ -1580,20 +1579,52 @@ func init() {
 // appending a child - its address equals the group's own, its address lies beyond the size of the file - makes a link that is
 // in the file disappear from the listing without an error.
 func listingCompleteRule(c *Ctx, r *Result, rule string) {
-	fn := c.FnOpt("hdf5.Group.loadChildren")
-	if fn == nil {
+	root := c.FnOpt("hdf5.Group.loadChildren")
+	if root == nil {
 		r.Shortfall(c, rule, rule+": hdf5.Group.loadChildren not found")
 		return
 	}
+	// loadChildren and the same-package functions below it that append to a group's children (helpers the entry loops
+	// were moved into)
+	appends := func(f *ssa.Function) bool {
+		for _, fs := range c.DirectFieldStores(f) {
+			if strings.HasSuffix(fs.Key, "hdf5.Group.children") {
+				return true
+			}
+		}
+		return false
+	}
+	total := 0
+	var fns []*ssa.Function
+	for f := range c.Reach([]*ssa.Function{root}, func(f *ssa.Function) bool { return shortPkg(fnPkgPath(f)) != "hdf5" }) {
+		if shortPkg(fnPkgPath(f)) == "hdf5" && f.Blocks != nil && (f == root || (appends(f) && !strings.HasPrefix(c.Name(f), "hdf5.load"))) {
+			fns = append(fns, f)
+		}
+	}
+	sort.Slice(fns, func(i, j int) bool { return c.Name(fns[i]) < c.Name(fns[j]) })
+	for _, f := range fns {
+		total += listingCompleteIn(c, r, rule, f, appends)
+	}
+	if total < 2 {
+		r.Shortfall(c, rule, fmt.Sprintf("%s: only %d skip decisions found in the entry loops below loadChildren", rule, total))
+	}
+}
+
+func listingCompleteIn(c *Ctx, r *Result, rule string, fn *ssa.Function, appends func(*ssa.Function) bool) int {
 	appendBlk := map[*ssa.BasicBlock]bool{}
 	for _, fs := range c.DirectFieldStores(fn) {
 		if fs.Fn == fn && strings.HasSuffix(fs.Key, ".children") {
 			appendBlk[fs.In.Block()] = true
 		}
 	}
+	// a call of a helper that appends the entry's children counts like the append itself
+	for _, site := range callsIn(fn) {
+		if g := site.Common().StaticCallee(); g != nil && g != fn && shortPkg(fnPkgPath(g)) == "hdf5" && g.Signature.Recv() != nil && appends(g) && !strings.HasPrefix(c.Name(g), "hdf5.load") && strings.HasPrefix(c.Name(g), "hdf5.Group.") {
+			appendBlk[site.(ssa.Instruction).Block()] = true
+		}
+	}
 	if len(appendBlk) == 0 {
-		r.Shortfall(c, rule, rule+": loadChildren does not append to children")
-		return
+		return 0
 	}
 	type loopT struct {
 		h    *ssa.BasicBlock
@@ -1703,9 +1734,7 @@ func listingCompleteRule(c *Ctx, r *Result, rule string) {
 	for i, f := range found {
 		r.Check(f.ok, rule, fmt.Sprintf("%s#entry-skipped-only-as-soft-link-%d", c.Name(fn), i+1), f.pos, "an index entry goes back to the loop head without becoming a child only under IsSoftLink(); any other skip condition drops a link that is in the file from the listing, silently")
 	}
-	if n < 2 {
-		r.Shortfall(c, rule, fmt.Sprintf("%s: only %d skip decisions found in the entry loops of loadChildren", rule, n))
-	}
+	return n
 }
 
 func init() {
